@@ -16,7 +16,7 @@ use barter_data::{
     event::MarketEvent,
     exchange::{
         Connector, StreamSelector,
-        binance::{futures::BinanceFuturesUsd, spot::BinanceSpot},
+        binance::{book::l2::BinanceOrderBookL2Snapshot, futures::BinanceFuturesUsd, spot::BinanceSpot},
         bitfinex::Bitfinex,
         bitmex::Bitmex,
         bybit::{futures::BybitPerpetualsUsd, spot::BybitSpot},
@@ -38,7 +38,7 @@ use barter_data::{
     },
     subscription::{
         Map, SubKind, Subscription, SubscriptionKind, SubscriptionMeta,
-        book::{OrderBookL1, OrderBooksL1},
+        book::{OrderBookEvent, OrderBookL1, OrderBooksL1, OrderBooksL2},
         exchange_supports_instrument_kind, exchange_supports_instrument_kind_sub_kind,
         liquidation::{Liquidation, Liquidations},
         trade::{PublicTrade, PublicTrades},
@@ -1633,6 +1633,392 @@ fn gen_support(em: &mut Emitter, r: &mut Rng, n_batch_cases: usize) {
     }
 }
 
+// ---------------------------------------------------------------------------------------------
+// Binance OrderBooksL2 (spot and futures): mapper + ExchangeTransformer::init with REST snapshots
+// + first depth updates. Only the attribution side is judged here (C06 owns the sequencing).
+// ---------------------------------------------------------------------------------------------
+
+#[derive(Clone, Debug)]
+struct L2Msg {
+    sym: String,
+    first: u64, // U
+    last: u64,  // u
+    prev: u64,  // pu (futures)
+    te: i64,    // E
+    tt: i64,    // T (futures)
+    bid: (i64, i64),
+    ask: (i64, i64),
+}
+impl L2Msg {
+    fn to_json(&self) -> Value {
+        json!({"sym": self.sym, "U": self.first, "u": self.last, "pu": self.prev, "E": self.te, "T": self.tt,
+               "bid": {"p": self.bid.0, "a": self.bid.1}, "ask": {"p": self.ask.0, "a": self.ask.1}})
+    }
+    fn from_json(v: &Value) -> L2Msg {
+        let lv = |x: &Value| (x["p"].as_i64().unwrap_or(4), x["a"].as_i64().unwrap_or(4));
+        L2Msg {
+            sym: v["sym"].as_str().unwrap().to_string(),
+            first: v["U"].as_u64().unwrap(),
+            last: v["u"].as_u64().unwrap(),
+            prev: v["pu"].as_u64().unwrap(),
+            te: v["E"].as_i64().unwrap(),
+            tt: v["T"].as_i64().unwrap(),
+            bid: lv(&v["bid"]),
+            ask: lv(&v["ask"]),
+        }
+    }
+    fn coq(&self) -> String {
+        format!(
+            "(mkL2 {} {} {} {} {} {} [{}] [{}])",
+            s(&self.sym), n(self.first as u128), n(self.last as u128), n(self.prev as u128),
+            z(self.te as i128), z(self.tt as i128),
+            pair(&z(self.bid.0 as i128), &z(self.bid.1 as i128)),
+            pair(&z(self.ask.0 as i128), &z(self.ask.1 as i128))
+        )
+    }
+    fn payload(&self, futures: bool) -> String {
+        let mut v = json!({"e": "depthUpdate", "E": self.te, "s": self.sym, "U": self.first, "u": self.last,
+                           "b": [[q4v(self.bid.0, 1), q4v(self.bid.1, 1)]], "a": [[q4v(self.ask.0, 0), q4v(self.ask.1, 2)]]});
+        if futures {
+            v["T"] = json!(self.tt);
+            v["pu"] = json!(self.prev);
+        }
+        v.to_string()
+    }
+}
+
+struct L2Out {
+    map: Vec<(String, u64)>,
+    init_ok: bool,
+    note: Option<String>,
+    outcomes: Vec<(String, &'static str)>,
+}
+
+fn levels_coq(ls: &[barter_data::books::Level]) -> String {
+    list(&ls.iter().map(|l| pair(&dec_q4(l.price), &dec_q4(l.amount))).collect::<Vec<_>>())
+}
+
+async fn run_l2<Exc, Inst>(
+    ex: Ex,
+    subs: Vec<Subscription<Exc, Inst, OrderBooksL2>>,
+    snap_keys: Vec<(Inst::Key, u64)>,
+    key_idx: &dyn Fn(&Inst::Key) -> u64,
+    msgs: &[L2Msg],
+) -> L2Out
+where
+    Exc: Connector + StreamSelector<Inst, OrderBooksL2> + Send + Sync,
+    Inst: InstrumentData,
+    Inst::Key: Clone + Send,
+    Subscription<Exc, Inst, OrderBooksL2>: Identifier<Exc::Channel> + Identifier<Exc::Market>,
+    <Exc as StreamSelector<Inst, OrderBooksL2>>::Stream: TransformerOf,
+    TrOf<Exc, Inst, OrderBooksL2>: ExchangeTransformer<Exc, Inst::Key, OrderBooksL2>,
+    <TrOf<Exc, Inst, OrderBooksL2> as Transformer>::Input: for<'de> Deserialize<'de>,
+    <TrOf<Exc, Inst, OrderBooksL2> as Transformer>::OutputIter:
+        IntoIterator<Item = Result<MarketEvent<Inst::Key, OrderBookEvent>, barter_data::error::DataError>>,
+{
+    let futures = ex == Ex::BinanceFuturesUsd;
+    let SubscriptionMeta { instrument_map, .. } = WebSocketSubMapper::map::<Exc, Inst, OrderBooksL2>(&subs);
+    let mut map: Vec<(String, u64)> = instrument_map.0.iter().map(|(id, k)| (id.0.to_string(), key_idx(k))).collect();
+    map.sort();
+    // one REST depth snapshot per subscription, in the venue's JSON format, keyed the way the
+    // SnapshotFetcher keys them (MarketEvent::from((exchange id, instrument key, snapshot)))
+    let snapshots: Vec<MarketEvent<Inst::Key, OrderBookEvent>> = snap_keys
+        .into_iter()
+        .map(|(k, l)| {
+            let body = if futures {
+                json!({"lastUpdateId": l, "E": 1_589_436_922_972i64 + l as i64, "T": 1_589_436_922_959i64 + l as i64,
+                       "bids": [["4.00000000", "431.00000000"]], "asks": [["4.00000200", "12.00000000"]]})
+            } else {
+                json!({"lastUpdateId": l, "bids": [["4.00000000", "431.00000000"]], "asks": [["4.00000200", "12.00000000"]]})
+            };
+            let snap: BinanceOrderBookL2Snapshot = serde_json::from_value(body).expect("snapshot json");
+            MarketEvent::from((Exc::ID, k, snap))
+        })
+        .collect();
+    let (tx, _rx) = tokio::sync::mpsc::unbounded_channel::<WsMessage>();
+    let mut tr = match <TrOf<Exc, Inst, OrderBooksL2> as ExchangeTransformer<Exc, Inst::Key, OrderBooksL2>>::init(instrument_map, &snapshots, tx).await {
+        Ok(t) => t,
+        Err(e) => return L2Out { map, init_ok: false, note: Some(format!("init error: {e}")), outcomes: vec![] },
+    };
+    let mut outcomes = vec![];
+    for m in msgs {
+        let text = m.payload(futures);
+        let res = std::panic::catch_unwind(AssertUnwindSafe(|| {
+            serde_json::from_str::<<TrOf<Exc, Inst, OrderBooksL2> as Transformer>::Input>(&text)
+                .map(|msg| tr.transform(msg).into_iter().collect::<Vec<_>>())
+        }));
+        let out = match res {
+            Err(_) => ("L2Panic".to_string(), "l2:panic"),
+            Ok(Err(_)) => ("L2Deser".to_string(), "l2:deser_error"),
+            Ok(Ok(v)) => {
+                let mut tag = if v.is_empty() { "l2:dropped" } else { "l2:attributed" };
+                let items: Vec<String> = v
+                    .iter()
+                    .map(|r| match r {
+                        Ok(MarketEvent { time_exchange, exchange, instrument, kind, .. }) => match kind {
+                            OrderBookEvent::Update(b) => format!(
+                                "(L2Ev {} {} {} {} {} {} {})",
+                                n(key_idx(instrument) as u128),
+                                exch_coq(*exchange),
+                                z(time_exchange.timestamp_millis() as i128),
+                                n(b.sequence as u128),
+                                opt(b.time_engine.map(|t| z(t.timestamp_millis() as i128))),
+                                levels_coq(b.bids().levels()),
+                                levels_coq(b.asks().levels())
+                            ),
+                            OrderBookEvent::Snapshot(_) => {
+                                tag = "l2:other_error";
+                                "(L2Err \"snapshot event\"%string)".to_string()
+                            }
+                        },
+                        Err(barter_data::error::DataError::InvalidSequence { prev_last_update_id, first_update_id }) => {
+                            tag = "l2:invalid_sequence";
+                            format!("(L2InvalidSeq {} {})", n(*prev_last_update_id as u128), n(*first_update_id as u128))
+                        }
+                        Err(e) => {
+                            let txt = match e {
+                                barter_data::error::DataError::Socket(t) => t.clone(),
+                                other => other.to_string(),
+                            };
+                            if let Some(id) = txt.strip_prefix(UNIDENT_PREFIX) {
+                                tag = "l2:unidentifiable";
+                                format!("(L2Unident {})", s(id))
+                            } else {
+                                tag = "l2:other_error";
+                                format!("(L2Err {})", s(&txt.replace(|c: char| !c.is_ascii(), "?")))
+                            }
+                        }
+                    })
+                    .collect();
+                (format!("(L2Out {})", list(&items)), tag)
+            }
+        };
+        outcomes.push(out);
+    }
+    L2Out { map, init_ok: true, note: None, outcomes }
+}
+
+async fn run_l2_flavour<Exc>(exc: Exc, ex: Ex, fl: Flavour, subs_in: &[SubIn], keys: &[u64], snaps: &[(usize, u64)], msgs: &[L2Msg]) -> L2Out
+where
+    Exc: Connector
+        + StreamSelector<MarketDataInstrument, OrderBooksL2>
+        + StreamSelector<Keyed<u64, MarketDataInstrument>, OrderBooksL2>
+        + StreamSelector<MarketInstrumentData<u64>, OrderBooksL2>
+        + Send + Sync + Clone,
+    Subscription<Exc, MarketDataInstrument, OrderBooksL2>: Identifier<Exc::Channel> + Identifier<Exc::Market>,
+    Subscription<Exc, Keyed<u64, MarketDataInstrument>, OrderBooksL2>: Identifier<Exc::Channel> + Identifier<Exc::Market>,
+    Subscription<Exc, MarketInstrumentData<u64>, OrderBooksL2>: Identifier<Exc::Channel> + Identifier<Exc::Market>,
+    <Exc as StreamSelector<MarketDataInstrument, OrderBooksL2>>::Stream: TransformerOf,
+    TrOf<Exc, MarketDataInstrument, OrderBooksL2>: ExchangeTransformer<Exc, MarketDataInstrument, OrderBooksL2>,
+    <TrOf<Exc, MarketDataInstrument, OrderBooksL2> as Transformer>::Input: for<'de> Deserialize<'de>,
+    <TrOf<Exc, MarketDataInstrument, OrderBooksL2> as Transformer>::OutputIter:
+        IntoIterator<Item = Result<MarketEvent<MarketDataInstrument, OrderBookEvent>, barter_data::error::DataError>>,
+    <Exc as StreamSelector<Keyed<u64, MarketDataInstrument>, OrderBooksL2>>::Stream: TransformerOf,
+    TrOf<Exc, Keyed<u64, MarketDataInstrument>, OrderBooksL2>: ExchangeTransformer<Exc, u64, OrderBooksL2>,
+    <TrOf<Exc, Keyed<u64, MarketDataInstrument>, OrderBooksL2> as Transformer>::Input: for<'de> Deserialize<'de>,
+    <TrOf<Exc, Keyed<u64, MarketDataInstrument>, OrderBooksL2> as Transformer>::OutputIter:
+        IntoIterator<Item = Result<MarketEvent<u64, OrderBookEvent>, barter_data::error::DataError>>,
+    <Exc as StreamSelector<MarketInstrumentData<u64>, OrderBooksL2>>::Stream: TransformerOf,
+    TrOf<Exc, MarketInstrumentData<u64>, OrderBooksL2>: ExchangeTransformer<Exc, u64, OrderBooksL2>,
+    <TrOf<Exc, MarketInstrumentData<u64>, OrderBooksL2> as Transformer>::Input: for<'de> Deserialize<'de>,
+    <TrOf<Exc, MarketInstrumentData<u64>, OrderBooksL2> as Transformer>::OutputIter:
+        IntoIterator<Item = Result<MarketEvent<u64, OrderBookEvent>, barter_data::error::DataError>>,
+{
+    match fl {
+        Flavour::Plain => {
+            let insts: Vec<MarketDataInstrument> = subs_in.iter().map(mdi).collect();
+            let subs = insts.iter().map(|i| Subscription::new(exc.clone(), i.clone(), OrderBooksL2)).collect();
+            let snap_keys = snaps.iter().map(|(i, l)| (insts[*i].clone(), *l)).collect();
+            let keys = keys.to_vec();
+            let insts2 = insts.clone();
+            let idx = move |k: &MarketDataInstrument| insts2.iter().position(|i| i == k).map(|p| keys[p]).unwrap_or(999_999_999);
+            run_l2::<Exc, MarketDataInstrument>(ex, subs, snap_keys, &idx, msgs).await
+        }
+        Flavour::Keyed => {
+            let subs = subs_in.iter().map(|su| Subscription::new(exc.clone(), Keyed::new(su.key, mdi(su)), OrderBooksL2)).collect();
+            let snap_keys = snaps.iter().map(|(i, l)| (subs_in[*i].key, *l)).collect();
+            run_l2::<Exc, Keyed<u64, MarketDataInstrument>>(ex, subs, snap_keys, &|k: &u64| *k, msgs).await
+        }
+        Flavour::Named => {
+            let subs = subs_in
+                .iter()
+                .map(|su| Subscription::new(exc.clone(), MarketInstrumentData { key: su.key, name_exchange: su.name.as_str().into(), kind: su.kind.real() }, OrderBooksL2))
+                .collect();
+            let snap_keys = snaps.iter().map(|(i, l)| (subs_in[*i].key, *l)).collect();
+            run_l2::<Exc, MarketInstrumentData<u64>>(ex, subs, snap_keys, &|k: &u64| *k, msgs).await
+        }
+    }
+}
+
+/// input: {"l2": true, "exch", "flavour", "subs": [..], "snaps": [{"sub": index, "l": lastUpdateId} ..]
+///         (in the order handed to init), "msgs": [..]}
+fn emit_l2(em: &mut Emitter, rt: &tokio::runtime::Runtime, stream: &'static str, input: &Value, extra_tags: &[String]) {
+    let ex = Ex::parse(input["exch"].as_str().unwrap());
+    let fl = Flavour::parse(input["flavour"].as_str().unwrap());
+    let subs: Vec<SubIn> = input["subs"].as_array().unwrap().iter().map(SubIn::from_json).collect();
+    let snaps: Vec<(usize, u64)> = input["snaps"]
+        .as_array()
+        .unwrap()
+        .iter()
+        .filter_map(|x| Some((x["sub"].as_u64()? as usize, x["l"].as_u64()?)))
+        .filter(|(i, _)| *i < subs.len())
+        .collect();
+    let msgs: Vec<L2Msg> = input["msgs"].as_array().unwrap().iter().map(L2Msg::from_json).collect();
+    let tmp = CaseIn { ex, sk: Sk::Trades, flavour: fl, subs: subs.clone(), bfx_cids: vec![], bfx_extra: vec![], msgs: vec![] };
+    let keys = model_keys(&tmp);
+    let res = std::panic::catch_unwind(AssertUnwindSafe(|| {
+        rt.block_on(async {
+            match ex {
+                Ex::BinanceSpot => run_l2_flavour(BinanceSpot::default(), ex, fl, &subs, &keys, &snaps, &msgs).await,
+                Ex::BinanceFuturesUsd => run_l2_flavour(BinanceFuturesUsd::default(), ex, fl, &subs, &keys, &snaps, &msgs).await,
+                e => panic!("no OrderBooksL2 connector for {e:?}"),
+            }
+        })
+    }));
+    let out = res.unwrap_or_else(|_| L2Out {
+        map: vec![],
+        init_ok: true,
+        note: Some("panic outside transform".into()),
+        outcomes: msgs.iter().map(|_| ("L2Panic".to_string(), "l2:panic")).collect(),
+    });
+    let subs_coq: Vec<String> = subs
+        .iter()
+        .zip(keys.iter())
+        .map(|(su, k)| {
+            let d = if fl == Flavour::Named {
+                format!("(INamed {} {})", s(&su.name), su.kind.coq())
+            } else {
+                format!("(IPair {} {} {})", s(&su.base), s(&su.quote), su.kind.coq())
+            };
+            pair(&n(*k as u128), &d)
+        })
+        .collect();
+    let map: Vec<String> = out.map.iter().map(|(id, k)| pair(&s(id), &n(*k as u128))).collect();
+    let snaps_coq: Vec<String> = snaps.iter().map(|(i, l)| pair(&n(keys[*i] as u128), &n(*l as u128))).collect();
+    let msgs_coq: Vec<String> = if out.init_ok {
+        msgs.iter().zip(out.outcomes.iter()).map(|(m, (o, _))| pair(&m.coq(), o)).collect()
+    } else {
+        vec![]
+    };
+    let coq = format!(
+        "(CL2 {} {} {} {} {} {})",
+        ex.name(), list(&subs_coq), list(&map), list(&snaps_coq), if out.init_ok { "true" } else { "false" }, list(&msgs_coq)
+    );
+    let mut tags = vec![format!("ex:{}", ex.name()), format!("pair:{}/OrderBooksL2", ex.name()), format!("flavour:{}", fl.name())];
+    tags.push(if out.init_ok { "l2:init_ok".into() } else { "l2:init_error".into() });
+    for (_, t) in &out.outcomes {
+        tags.push(t.to_string());
+    }
+    if let Some(nt) = &out.note {
+        tags.push(format!("note:{nt}"));
+    }
+    tags.extend(extra_tags.iter().cloned());
+    let nontrivial = out.outcomes.iter().filter(|(_, t)| *t == "l2:attributed").count() >= 2;
+    em.emit(Case { stream, input: input.clone(), coq, nontrivial, tags });
+}
+
+const L2_BASES: [&str; 12] = ["btc", "BTC", "1000pepe", "pepe", "1000shib", "shib", "eth", "ethw", "bt", "b", "sol", "1000sats"];
+const L2_QUOTES: [&str; 6] = ["usdt", "usdc", "USDT", "fdusd", "cusdt", "tcusdt"];
+
+fn gen_l2_case(r: &mut Rng, ex: Ex, fl: Flavour, permuted: bool, adversarial: bool, max_subs: u64) -> Value {
+    let kind = if ex == Ex::BinanceSpot { IK::Spot } else { IK::Perp };
+    let n_subs = 2 + r.below(max_subs - 1) as usize;
+    let mut subs: Vec<SubIn> = vec![];
+    let mut tries = 0;
+    while subs.len() < n_subs && tries < 200 {
+        tries += 1;
+        let (b, q) = (r.pick(&L2_BASES).to_string(), r.pick(&L2_QUOTES).to_string());
+        let name = venue_symbol(ex, &b, &q, &kind);
+        let su = SubIn { key: 1 + r.below(1000), base: b, quote: q, name, kind: kind.clone() };
+        let sym = sub_symbol(ex, fl, &su);
+        if subs.iter().any(|o| sub_symbol(ex, fl, o) == sym || o.key == su.key) {
+            continue;
+        }
+        subs.push(su);
+    }
+    // snapshot ids far apart, so that a market's first update is invalid against any other
+    // market's snapshot
+    let mut ls: Vec<u64> = (0..subs.len() as u64).map(|i| 1000 * (i + 1) + r.below(400)).collect();
+    r.shuffle(&mut ls);
+    let mut order: Vec<usize> = (0..subs.len()).collect();
+    if permuted {
+        r.shuffle(&mut order);
+        if order.iter().enumerate().all(|(i, o)| i == *o) {
+            order.rotate_left(1);
+        }
+    }
+    let mut snaps: Vec<Value> = order.iter().map(|i| json!({"sub": i, "l": ls[*i]})).collect();
+    if adversarial && r.chance(1, 6) {
+        snaps.pop(); // a missing snapshot: init must fail
+    }
+    let t0 = 1_571_889_000_000i64 + r.below(1_000_000_000) as i64;
+    let mk = |r: &mut Rng, sym: &str, first: u64, last: u64, prev: u64| L2Msg {
+        sym: sym.to_string(),
+        first,
+        last,
+        prev,
+        te: t0 + r.below(100_000) as i64,
+        tt: t0 - 1 - r.below(1000) as i64,
+        bid: (4 + r.below(400_000) as i64, 4 * (1 + r.below(1000)) as i64),
+        ask: (400_004 + r.below(400_000) as i64, 4 * (1 + r.below(1000)) as i64),
+    };
+    let mut msgs: Vec<L2Msg> = vec![];
+    let mut idx: Vec<usize> = (0..subs.len()).collect();
+    r.shuffle(&mut idx);
+    for i in idx {
+        let sym = sub_symbol(ex, fl, &subs[i]);
+        let l = ls[i];
+        // valid first update for both rule sets: U <= l, l + 1 <= u
+        let first = l - r.below(3);
+        let last = l + 1 + r.below(5);
+        let pu = first - 1 - r.below(3);
+        msgs.push(mk(r, &sym, first, last, pu));
+        if adversarial {
+            match r.below(4) {
+                0 => msgs.push(mk(r, &sym, last + 1, last + 3, last)),  // valid next
+                1 => msgs.push(mk(r, &sym, last + 5, last + 9, last + 4)), // gap
+                2 => msgs.push(mk(r, &sym, first, l - 1 + (ex == Ex::BinanceSpot) as u64, pu)), // stale
+                _ => {}
+            }
+        }
+    }
+    // a market nobody subscribed to, and a case variant of a subscribed one
+    let other = venue_symbol(ex, "doge", "usdt", &kind);
+    let pos = r.below(msgs.len() as u64 + 1) as usize;
+    let m = mk(r, &other, 1000, 1004, 998);
+    msgs.insert(pos, m);
+    if r.chance(1, 2) {
+        let v = sub_symbol(ex, fl, &subs[0]).to_lowercase();
+        let m = mk(r, &v, ls[0], ls[0] + 2, ls[0] - 1);
+        msgs.push(m);
+    }
+    json!({"l2": true, "exch": ex.name(), "flavour": fl.name(),
+           "subs": subs.iter().map(|s| s.to_json()).collect::<Vec<_>>(), "snaps": snaps,
+           "msgs": msgs.iter().map(|m| m.to_json()).collect::<Vec<_>>()})
+}
+
+fn gen_l2(em: &mut Emitter, rt: &tokio::runtime::Runtime, r: &mut Rng, n_rand: usize) {
+    // table: both pairs x three flavours x snapshots in subscription order / permuted
+    for ex in [Ex::BinanceSpot, Ex::BinanceFuturesUsd] {
+        for fl in [Flavour::Plain, Flavour::Keyed, Flavour::Named] {
+            for permuted in [false, true] {
+                for n in [3u64, 8] {
+                    let c = gen_l2_case(r, ex, fl, permuted, false, n);
+                    emit_l2(em, rt, "table", &c, &[format!("l2:snapshots_{}", if permuted { "permuted" } else { "in_order" })]);
+                }
+            }
+        }
+    }
+    for i in 0..n_rand {
+        let ex = if i % 2 == 0 { Ex::BinanceSpot } else { Ex::BinanceFuturesUsd };
+        let fl = [Flavour::Plain, Flavour::Keyed, Flavour::Named][(i / 2) % 3];
+        let adversarial = i % 3 == 2;
+        let permuted = r.chance(2, 3);
+        let c = gen_l2_case(r, ex, fl, permuted, adversarial, 8);
+        emit_l2(em, rt, if adversarial { "adversarial" } else { "random" }, &c, &[]);
+    }
+}
+
 fn main() {
     quiet_panics();
     let args = parse_args();
@@ -1644,6 +2030,7 @@ fn main() {
             let (n_rand, n_adv, max_subs, n_msgs) = if args.tier == "thorough" { (6000, 3000, 8, 10) } else { (380, 190, 5, 7) };
             table(&mut em, &rt, &mut r);
             gen_support(&mut em, &mut r, if args.tier == "thorough" { 40 } else { 6 });
+            gen_l2(&mut em, &rt, &mut r, if args.tier == "thorough" { 900 } else { 60 });
             let fls = [Flavour::Plain, Flavour::Keyed, Flavour::Named];
             for i in 0..n_rand {
                 let pair = PAIRS[i % PAIRS.len()];
@@ -1660,6 +2047,10 @@ fn main() {
         }
         "exec" => {
             for (inp, stream) in read_inputs(args.input.as_deref().expect("--in")) {
+                if inp.get("l2").is_some() {
+                    emit_l2(&mut em, &rt, stream_static(&stream), &inp, &[]);
+                    continue;
+                }
                 if inp.get("support").is_some() {
                     emit_support(&mut em, stream_static(&stream), &inp);
                     continue;
